@@ -787,9 +787,62 @@ def sessions(ctx):
                              % (len(script) - 1, 'range' if use_range else 'number', text, got, exp),
                         replay=dict(session=script, got=list(got), expected=list(exp))))
                     break
+    n_calls += bystanders(ctx, AP)
     ctx.stats['evaluations'] += n_calls
     ctx.stats.setdefault('distribution', {})['session_calls'] = n_calls
     ctx.note('sessions: %d long-lived parsers, %d calls compared with fresh parsers' % (n_sess, n_calls))
+
+
+def bystanders(ctx, AP):
+    """Isolation between parser instances: a label defined on one parser (in place, as the monitor's
+    add_label does), or put into the dict a parser was built from afterwards, is unknown to every
+    other parser -- however the parsers were constructed (default labels, explicit dict, same dict).
+    Seeded change C15-3 (the default `labels={}` shared by all parsers) was missed before this."""
+    rng = random.Random('c15-bystanders-%d' % ctx.seed)
+    n = 0
+    ctors = {
+        'default': lambda w, src: AP(maxwidth=w),
+        'empty-dict': lambda w, src: AP(maxwidth=w, labels={}),
+        'given-dict': lambda w, src: AP(maxwidth=w, labels=src),
+        'positional': lambda w, src: AP(w, 16, src),
+        'no-args': lambda w, src: AP(),
+    }
+    kinds = sorted(ctors)
+    for _ in range(60 if ctx.quick() else 600):
+        wa, wb = rng.choice([16, 24, 32]), rng.choice([16, 24, 32])
+        ka, kb = rng.choice(kinds), rng.choice(kinds)
+        src = {'shared': 5}
+        a = ctors[ka](wa, src)
+        b = ctors[kb](wb, src)
+        name = rng.choice(['vram', 'foo', 'c0de', 'L1'])
+        top_a = (1 << a.maxwidth) - 1
+        val = rng.choice([0, 1, 0xffff, 0x10000, top_a]) & top_a
+        script = ['A = %s parser (width %d)' % (ka, a.maxwidth), 'B = %s parser (width %d)' % (kb, b.maxwidth)]
+        before = [_outcome(b.number, name), _outcome(b.range, name), _outcome(b.number, name + '+1')]
+        a.labels[name] = val
+        script.append('A.labels[%r] = %d' % (name, val))
+        if rng.random() < 0.5:
+            src[name + 'x'] = 7
+            script.append('the dict passed to the constructors gets %r afterwards' % (name + 'x'))
+            before.append(None)
+        after = [_outcome(b.number, name), _outcome(b.range, name), _outcome(b.number, name + '+1')]
+        n += 3
+        bad = None
+        if after != before[:3]:
+            bad = 'B.number/range(%r) changed from %r to %r' % (name, before[:3], after)
+        elif _outcome(a.number, name) != ('ok', val):
+            bad = 'A.number(%r) is %r, expected %d' % (name, _outcome(a.number, name), val)
+        if bad is None and len(before) == 4:
+            # the constructor copies its argument: a later change of that dict is invisible to both
+            for who, q in (('A', a), ('B', b)):
+                if _outcome(q.number, name + 'x')[0] == 'ok':
+                    bad = '%s resolves %r, which was added to the constructor argument only after construction' % (who, name + 'x')
+        if bad:
+            ctx.findings.append(dict(key=dict(kind='instance-isolation'),
+                                     what='two parsers: %s -- %s' % ('; '.join(script), bad),
+                                     replay=dict(session=script, problem=bad)))
+            break
+    return n
 
 
 def replay(ctx, path):
